@@ -6,7 +6,8 @@ import CsVerif.Model.C08
          → `ok cfg|guard <xorkey> <xorencoded T|F> <len>.<ck of block> <#settings> <compile> <export> <arch>` | `exc <E>`
   xor    <B|O> <B> <data>      XorEncodedFile.from_file          → `ok <nonce_offset>` | `exc <E>`
   mz arch stamps mmz mpe ppa   <B|O> <data>   pe.find_*(fh)      → `ok <value tokens>` | `exc <E>`
-  ppaL   <L> <B|O> <data>      pe.find_stage_prepend_append on a file object whose file system accepts offsets ≤ L
+  ppaL   <L> <B|O> <data>      pe.find_stage_prepend_append on a file object whose `seek` accepts offsets ≤ L (the code as it
+                               stands, fix ce8ae1d: a rejected final seek is caught and gives `(prepend, None)`)
   art    <B|O> <data>          list(iter_artifactkit_payloads)   → `ok <n> <ck>` | `exc <E>`
   http   <data>                parse_raw_http                    → `ok request <#params> <#headers> <|body|>` | `ok response <status> …` | `exc <E>`
 
